@@ -154,6 +154,56 @@ func goModShapes(recs []Record, l Layout, content []byte) []string {
 	if len(reps) > 1 {
 		set["gomod_"+strconv.Itoa(minInt(len(reps), 4))+"_or_more_replaces"] = true
 	}
+	if g := goRecordOf(recs); g == nil {
+		set["gomod_no_go_directive"] = true
+	} else {
+		switch g.Version {
+		case "1.16", "1.16.0", "1.16.15", "1.17", "1.17.0", "1.17.1", "1.18", "1.21", "1.21.0":
+			set["gomod_go_"+g.Version] = true
+		}
+		if g.A("toolchain") != "" {
+			set["gomod_toolchain_line"] = true
+		}
+		if s := g.A("sum"); s != "" {
+			set["gomod_sum_file"] = true
+			when := "go_at_least_1.17"
+			if GoSumIsRead(*g) {
+				when = "go_below_1.17"
+			} else if g.Version == "1.17" || g.Version == "1.17.0" {
+				when = "go_exactly_1.17"
+			}
+			set["gomod_sum_file_"+when] = true
+			if g.A("toolchain") != "" {
+				set["gomod_sum_file_and_toolchain_line"] = true
+			}
+			// entries that go.mod does not list (stale versions, other modules)
+			listed := map[Pair]bool{}
+			for _, p := range goModOnlyFn(recs, l) {
+				listed[p] = true
+			}
+			extra, both := 0, 0
+			for _, e := range GoSumEntries(recs, l) {
+				if !e.Full {
+					set["gomod_sum_gomod_only_line"] = true
+					continue
+				}
+				if listed[Pair{e.Path, trimV(e.Version)}] {
+					both++
+				} else {
+					extra++
+				}
+			}
+			if extra > 0 {
+				set["gomod_sum_lists_unrequired_versions_"+when] = true
+			}
+			if both > 0 {
+				set["gomod_sum_lists_required_versions_"+when] = true
+			}
+			if extra == 0 && both == 0 {
+				set["gomod_sum_without_module_lines"] = true
+			}
+		}
+	}
 	return keysOf(set)
 }
 
